@@ -138,12 +138,21 @@ func (c01) Gen(rng *rand.Rand, tier string, idx int) Case {
 				if t < first+k*size {
 					t = first + k*size
 				}
-				c.Ops = append(c.Ops, []string{"pttick"})
+				op := []string{"pttick"}
+				if rng.Intn(3) == 0 { // an Add during the hand-off of the fired window (inside the callback)
+					id++
+					op = append(op, "0:"+strconv.Itoa(id)+":"+itoa(t))
+					c.Stat = append(c.Stat, "pt-gap-add")
+				}
+				c.Ops = append(c.Ops, op)
 			} else {
 				id++
 				t += rng.Int63n(size/2 + 1)
 				c.Ops = append(c.Ops, []string{"add", strconv.Itoa(id), itoa(t)})
 			}
+		}
+		for j := 0; j < 3; j++ {
+			c.Ops = append(c.Ops, []string{"pttick"})
 		}
 		c.Stat = append(c.Stat, "processing-time")
 		return c
